@@ -659,6 +659,10 @@ class Weaver:
         if unit is not None and getattr(unit, "idents", None) and t.text in unit.idents and not (toks[i - 1].kind == "p" and toks[i - 1].text in (".", "::")) and toks[i + 1].text != "::":
             fired("R23:ident-rename")
             return unit.idents[t.text], 0
+        if unit is not None and getattr(unit, "idents", None) and (t.text + "::") in unit.idents and toks[i + 1].text == "::" and not (toks[i - 1].kind == "p" and toks[i - 1].text in (".", "::")):
+            # R32: the head of a path (`std::fmt::Formatter` -> `vstdm::fmt::Formatter`, the mirror module of spec/prelude/fmt.rs)
+            fired("R32:path-head")
+            return unit.idents[t.text + "::"], 0
         if t.text == "Self" and unit is not None and getattr(unit, "assoc", None) and toks[i + 1].text == "::" and toks[i + 2].text in unit.assoc:
             fired("R21:assoc-type")
             return expand(unit.assoc[toks[i + 2].text], ctx), 2
